@@ -22,8 +22,8 @@ CLAIMED = {
 CLAIMED.update({
  "C15": dict(engine="histsim", cat="exploration", ref="5.C15",
    technique="deterministic simulation with fault injection: seeded operation histories on one long-lived parser (faulted, abandoned, reconfigured parses) checked step by step against a freshly constructed parser; adopted documents re-checked at the end",
-   text="One long-lived parser object per run is driven through a seeded history of parses over documents that share element names, ID values and entity names, with injected handler exceptions (three flavours), stream failures, truncation, resolver failures, abandoned progressive parses (with and without parseReset), per-operation reconfiguration (scanner, validation scheme, features) and document-pool resets. After EVERY operation the canonical dump of the reused parser must equal that of a fresh parser performing only that operation; adopted documents must be unchanged at the end of the history and after the parser is destroyed.",
-   note="Grammar caching (loadGrammar / cacheGrammarFromParse / pool lock) is exercised by the cached-grammar part of this check where noted in the evidence; trust: canonical dump, same simulated world for both parsers."),
+   text="One long-lived parser object per run is driven through a seeded history of parses over documents that share element names, ID values and entity names, with injected handler exceptions (three flavours), stream failures, truncation, resolver failures, abandoned progressive parses (with and without parseReset), per-operation reconfiguration (scanner, validation scheme, features) and document-pool resets. After EVERY operation the canonical dump of the reused parser must equal that of a fresh parser performing only that operation; adopted documents must be unchanged at the end of the history and after the parser is destroyed. The scanner object of the long-lived parser is kept across operations (it is only replaced when the operation asks for another scanner kind); a fifth of the documents carries duplicated attributes and a tenth is cut inside a start tag, so that parses are aborted in the middle of a start tag. A sixth of the runs exercises the cached-grammar clauses instead: generated schemas or a DTD in the simulated file system and instances that name them; the record (events, defaults, errors, PSVI) of an instance validated against grammars preloaded with loadGrammar, against a grammar cached by an earlier parse of the same parser (cacheGrammarFromParse, then useCachedGrammarInParse) and by the caching parse itself must equal the record of a parser that loads the grammar inline; a locked pool must have the same grammars, serialised length and XSModel listing after parses against it (incl. a caching parse of a document of a foreign namespace).",
+   note="Trust: canonical dump, same simulated world for both parsers. The cached-grammar comparison is made only for grammars that load without errors or warnings (an inline parse reports the grammar's own errors inside the instance's record) and only with pools that hold nothing the instance would not load itself."),
  "C18": dict(engine="histsim", cat="fault_enumeration", ref="5.C18",
    technique="deterministic simulation with fault injection: every ending of a parse (handler exception at each callback k, abandon after each progressive step, stream failure at each read, truncation, adopt/release orders, reuse) enumerated against a ledger MemoryManager; Initialize/Terminate nesting with a ledger global manager in every run",
    text="Every run performs its own XMLPlatformUtils::Initialize (custom ledger global manager, nesting depth 1-3, optionally the DOM-heap overload) and Terminate. In between, for one generated world and configuration, every way the parse can end is executed on a parser that owns its own ledger manager: natural end, exception thrown from the k-th callback for every k (capped per tier), progressive parse abandoned after every step, stream failing at reads 1-3 of every entity, truncation, adoptDocument with both destruction orders, reuse. After the parser is destroyed its ledger must be empty and no foreign or double free may have occurred (freed blocks stay quarantined and ASan-poisoned for the run); after the last Terminate the global ledger must be empty; a second Initialize/Terminate cycle must reproduce the same dump.",
@@ -40,12 +40,12 @@ CLAIMED.update({
 CLAIMED.update({
  "C19": dict(engine="worldsim", cat="exploration", ref="5.C19",
    technique="deterministic simulation with fault injection: the parser inside a simulated file system + network + plan-driven entity resolver (answers / null / throws, resources missing); every open, request and resolver offer is logged and checked against a permit model; seeded entity DAGs and cycles against the SecurityManager bound",
-   text="Each run generates a world - a document in /sim/a or http://sim.test/a referencing an external subset, external general and parameter entities declared in the internal and in the external subset (nested, unreferenced ones too) or schema location hints with include/import, spelled relative, absolute, as file: or http: URL, with decoy files at the locations a wrong base URI would produce - and a random configuration (scanner, validation scheme, loadExternalDTD, loadSchema, doSchema, disableDefaultEntityResolution, resolver kind and which identifiers it answers). Safety: every file open / net request seen by the simulated world must be in the set the configuration permits (empty with default resolution disabled, with the DTD-ignoring scanners, with external-DTD loading and validation off, with schema loading off; never an unreferenced entity, never a decoy). Protocol: every default open was first offered to the installed resolver, a source supplied by the resolver replaces the default, offers resolve (RFC 2396, against the base of the declaring entity) to the designated location. A quarter of the runs generate entity DAGs, cycles and parameter-entity chains and check the expansion limit (fatal error iff the document needs more expansions than the limit, at most `limit` expansions started, unaffected otherwise, cycles always reported, step budget).",
+   text="Each run generates a world - a document in /sim/a or http://sim.test/a referencing an external subset, external general and parameter entities declared in the internal and in the external subset (nested, unreferenced ones too) or schema location hints with include/import, spelled relative, absolute, as file: or http: URL, with decoy files at the locations a wrong base URI would produce - and a random configuration (scanner, validation scheme, loadExternalDTD, loadSchema, doSchema, disableDefaultEntityResolution, resolver kind and which identifiers it answers). Safety: every file open / net request seen by the simulated world must be in the set the configuration permits (empty with default resolution disabled, with the DTD-ignoring scanners, with external-DTD loading and validation off, with schema loading off; never an unreferenced entity, never a decoy). Protocol: every default open was first offered to the installed resolver, a source supplied by the resolver replaces the default, offers resolve (RFC 2396, against the base of the declaring entity) to the designated location. A quarter of the runs generate entity DAGs, cycles and parameter-entity chains and check the expansion limit (fatal error iff the document needs more expansions than the limit, at most `limit` expansions started, unaffected otherwise, cycles always reported, step budget; in a third of these runs the application sets the limit on the SecurityManager only after it has installed the manager on the parser).",
    note="The permit model encodes the statement's rules; an access that bypassed XMLPlatformUtils::fgFileMgr / fgNetAccessor would not be seen (the real PosixFileMgr and CurlNetAccessor are replaced). The SAX1 EntityResolver carries no base URI: its offers are identified by their literal."),
  "C20": dict(engine="worldsim", cat="exploration", ref="5.C20",
    technique="deterministic simulation with fault injection: generated inclusion graphs over a simulated file system with missing / unopenable / torn targets and seeded short-read schedules; result compared with a reference XInclude expander that runs on the generator's tree model with the same fault decisions",
    text="Each run generates 3-7 files in nested directories (relative hrefs incl. '../', repeated and nested includes, parse=xml and parse=text in UTF-8 / UTF-16 / ISO-8859-1, cycles and self-inclusion, fallbacks containing further includes, invalid usages) and fault decisions (target missing, cannot be opened, torn; every file read through a seeded short-read schedule). XercesDOMParser or DOMLSParser processes the main document with XInclude on. Where the reference expander says all inclusions are satisfiable the merged tree (xml:base and redundant xmlns=\"\" attributes set aside) must equal the parse of the expander's output and no fatal error may be reported; where the specification demands an error (loop, self-inclusion, unknown parse value, xpointer, two fallbacks, orphan fallback, missing href, unavailable target without fallback) one must be reported; processing must end within the step budget and leave no file handle open.",
-   note="xml:base values are not compared literally: base fix-up is judged by nested relative hrefs inside included content reaching the files the model says they designate. Document-level (root element) includes are not generated."),
+   note="xml:base values are not compared literally: base fix-up is judged by nested relative hrefs inside included content reaching the files the model says they designate. Included files may have an xi:include as their document element (usually pointing into another directory); the main document's own root is always an element."),
 })
 
 CLAIMED.update({
